@@ -24,7 +24,23 @@ def build_tls(rng, reg):
     nids = rng.choice((255, 256, 257, 4160, 8320, 8321, 16384, 32766, 32767)) if rng.random() < .012 else rng.choice((0, 1, 2, 5, 40))
     ids = [rng.choice(regl) if rng.random() < .6 else rng.randrange(65536) for _ in range(nids)]
     comp = [rng.randrange(256) for _ in range(rng.choice((0, 1, 2, 2, 255)))]
-    ext = None if rng.random() < .3 else rng.randbytes(rng.choice((0, 4, 30)))
+    r = rng.random()
+    if r < .3:
+        ext = None
+    elif r < .6:
+        ext = rng.randbytes(rng.choice((0, 4, 30)))
+    elif r < .8:
+        # a well-formed extension block (accessors return the structure's own fields whatever the block says)
+        ext = rng.choice((bytes.fromhex('002b00020304'), bytes.fromhex('002b0003020304'), bytes.fromhex('00170000002b00020304'), bytes.fromhex('002b00027f1c'),
+                          bytes.fromhex('0000000e000c0000096c6f63616c686f7374'), bytes.fromhex('00230000'), bytes.fromhex('ff01000100')))
+    else:
+        import enc as _enc, core as _core
+        w = _core.Writer()
+        try:
+            _enc.gen_extension_list(rng, w, rng.choice((1, 2, 3)), 'ext', 40)
+            ext = w.bytes()
+        except Exception:
+            ext = b''
     return version, random, sid, ids, comp, ext, lead
 
 
